@@ -49,6 +49,7 @@ Definition run (kind : Z) (inp : list Z) : list Z :=
   | 1602 => run_udp_parse inp
   | 1603 => run_http_parse inp
   | 1604 => run_net_nesting inp
+  | 1605 => run_resp_limit inp
   | 1105 => run_wqueue inp
   | 1106 => run_net_nesting inp
   | 1201 => run_mse_honest inp
@@ -113,6 +114,7 @@ Definition mon (kind : Z) (inp obs : list Z) : bool :=
   | 1602 => mon_udp_parse inp obs
   | 1603 => mon_http_parse inp obs
   | 1604 => list_eqb_Z (run_net_nesting inp) obs
+  | 1605 => list_eqb_Z (run_resp_limit inp) obs
   | 1105 => list_eqb_Z (run_wqueue inp) obs
   | 1106 => list_eqb_Z (run_net_nesting inp) obs
   | 1201 => list_eqb_Z (run_mse_honest inp) obs
